@@ -22,11 +22,20 @@ func c01ItemNil(it any) bool {
 	v := reflect.ValueOf(it)
 	switch v.Kind() {
 	case reflect.Pointer, reflect.Interface:
-		return v.IsNil()
+		if v.IsNil() {
+			return true
+		}
+		// unset/empty properties are absent: a pointer to a struct with no field set is empty
+		if e := v.Elem(); e.Kind() == reflect.Struct && e.IsZero() {
+			return true
+		}
+		return false
 	case reflect.Slice:
 		return v.Len() == 0
 	case reflect.String:
 		return v.Len() == 0
+	case reflect.Struct:
+		return v.Type() != tTime && v.IsZero()
 	}
 	return false
 }
@@ -150,8 +159,13 @@ func c01Opts(g *Gen) GenOpts {
 func runC01(seed int64, n int, tier string, outDir string) (*Report, error) {
 	rep := &Report{Rule: "well-formed vocabulary values of all 14 struct kinds (value and pointer form, depth <= 3, every field set with probability 1/3, IRIs absolute URLs, vocabulary types or empty, list members with pairwise distinct ids, plain natural-language text, whole-second instants and durations, positive and negative numbers) + per-field probes (every kind x every field x each admissible shape, one field set at a time, exhaustive); native: MarshalJSON then UnmarshalJSON, compared field by field by reflection up to the documented normal form; non-trivial = at least 3 properties set; distinct by canonical term"}
 	g := NewGen(seed, "C01")
-	hdr := "From AP.Model Require Import Prelude Vocab.\nDefinition ok (c : item) : bool := true.\n"
-	_ = hdr
+	decBudget := n / 4
+	hdr := "From AP.Model Require Import Prelude Vocab JsonCodec.\n" +
+		"Definition ok (c : bytes * outcome item) : bool := let '(b, o) := c in\n" +
+		"  match dec b with Some r => outcome_eqb item_eqb r o | None => false end.\n"
+	cw := NewCaseWriter(outDir, "Cases_C01_dec", hdr, "bytes * outcome item")
+	cw.SetChunk(10, 1)
+	decCases := 0
 	roundtrip := func(it ap.Item, label string, idx int) {
 		term := CoqItem(it)
 		rep.Evaluations++
@@ -173,6 +187,11 @@ func runC01(seed int64, n int, tier string, outDir string) (*Report, error) {
 			rep.Violate(Violation{Op: "json round trip " + label, Input: term, Expected: "no error", Observed: err.Error(), Index: idx})
 			return
 		}
+		// decoder correspondence: the document the library wrote, and what the library read from it
+		if len(out) > 0 && len(out) < 2500 && (label != "random" || decCases < decBudget) && (label == "random" || idx%7 == 0) {
+			cw.Add("("+hx(out)+", Ok "+CoqItem(back)+")", fmt.Sprintf("%s idx=%d", label, idx))
+			decCases++
+		}
 		var diffs []string
 		c01Diff(structName(it), it, back, &diffs)
 		if len(diffs) > 0 {
@@ -187,8 +206,8 @@ func runC01(seed int64, n int, tier string, outDir string) (*Report, error) {
 			for _, val := range probeValues(g, rt.Field(fi).Type, rt.Field(fi).Name) {
 				pv := reflect.New(rt)
 				pv.Elem().FieldByName("ID").SetString("https://example.com/probe")
-				if ts := typeByKind[rt.Name()]; len(ts) > 1 {
-					pv.Elem().FieldByName("Type").SetString(string(ts[1]))
+				if ts := typeByKind[rt.Name()]; len(ts) > 0 {
+					pv.Elem().FieldByName("Type").SetString(string(ts[len(ts)-1]))
 				}
 				pv.Elem().Field(fi).Set(val)
 				roundtrip(pv.Interface().(ap.Item), "probe "+rt.Name()+"."+rt.Field(fi).Name, idx)
@@ -205,6 +224,9 @@ func runC01(seed int64, n int, tier string, outDir string) (*Report, error) {
 			rep.Sample(CoqItem(it))
 		}
 		idx++
+	}
+	if err := rep.AddCases(cw); err != nil {
+		return nil, err
 	}
 	return rep, nil
 }
